@@ -317,6 +317,30 @@ func findTop(s, op string) int {
 	return -1
 }
 
+// findTopQuantConjunct returns the index of a top-level "forall "/"exists " that directly follows a top-level "&&".
+func findTopQuantConjunct(s string) int {
+	depth := 0
+	for i := 0; i < len(s); i++ {
+		ch := s[i]
+		switch ch {
+		case '"', '\'', '`':
+			i = skipLiteral(s, i) - 1
+			continue
+		case '(', '[', '{':
+			depth++
+		case ')', ']', '}':
+			depth--
+		}
+		if depth == 0 && strings.HasPrefix(s[i:], "&&") {
+			rest := strings.TrimLeft(s[i+2:], " \t")
+			if strings.HasPrefix(rest, "forall ") || strings.HasPrefix(rest, "exists ") {
+				return len(s) - len(rest)
+			}
+		}
+	}
+	return -1
+}
+
 func rw(s string) (string, error) {
 	s = strings.TrimSpace(s)
 	if strings.HasPrefix(s, "forall ") || strings.HasPrefix(s, "exists ") {
@@ -347,6 +371,24 @@ func rw(s string) (string, error) {
 			body = fmt.Sprintf("%s(func(%s %s) bool { return %s })", q, name, typ, body)
 		}
 		return body, nil
+	}
+	// a quantifier as the last conjunct: A && B && forall x :: P   (its body extends to the end of the clause);
+	// it binds tighter than an implication to its left, looser than one inside its own body
+	if q := findTopQuantConjunct(s); q > 0 {
+		p1, p2 := findTop(s, "==>"), findTop(s, "<==>")
+		if (p1 < 0 || q < p1) && (p2 < 0 || q < p2) {
+			head := strings.TrimSpace(s[:q])
+			head = strings.TrimSpace(strings.TrimSuffix(head, "&&"))
+			a, err := rw(head)
+			if err != nil {
+				return "", err
+			}
+			b, err := rw(s[q:])
+			if err != nil {
+				return "", err
+			}
+			return fmt.Sprintf("(%s) && %s", a, b), nil
+		}
 	}
 	if i := findTop(s, "<==>"); i >= 0 {
 		a, err := rw(s[:i])
